@@ -751,6 +751,74 @@ def _in_test(node):
     return False
 
 
+def r8_token_invariants(rep, src):
+    """the accepting parser must not fail in a token constructor: every token class the tokenizers build is constructed (by
+    interpretation of __init__ and the validators it calls) on a symbolic text ranging over everything a tokenizer can hand
+    it -- a whole line for comment and error tokens, runs of whitespace lines for whitespace tokens, a newline-free piece of a
+    line otherwise; where a validator's decision depends on the text the case is split on its language"""
+    from .. import heap as H, symstr
+    from ..symstr import SStr
+    mod = src.mod(TK)
+    built = set()
+    for q, fn in mod.funcs.items():
+        for n in ast.walk(fn.node):
+            if isinstance(n, (ast.Yield,)) and isinstance(n.value, ast.Call) and isinstance(n.value.func, ast.Name) and n.value.func.id in mod.classes:
+                built.add((n.value.func.id, len(n.value.args)))
+    if len(built) < 8:
+        raise AnalysisError('%s: only %d token constructions found in the tokenizers' % (TK, len(built)))
+    NONL, WSP = r'[^\n]', r'[^\S\n]'
+    # texts as templates over atoms (so that find / slicing / endswith are decided structurally): (description, atoms, builder)
+    comment = [('a comment line', {'A': NONL + '*'}, lambda a: SStr(['#']) + a['A'] + '\n'), ('an unterminated comment line', {'A': NONL + '*'}, lambda a: SStr(['#']) + a['A'])]
+    anyline = [('a whole line', {'A': NONL + '+'}, lambda a: a['A'] + '\n'), ('an unterminated line', {'A': NONL + '+'}, lambda a: a['A'])]
+    white = [('whitespace without newline', {'A': WSP + '+'}, lambda a: a['A']), ('a whitespace line', {'A': WSP + '*'}, lambda a: a['A'] + '\n'),
+             ('two merged whitespace lines', {'A': WSP + '*', 'B': WSP + '*'}, lambda a: a['A'] + '\n' + a['B'] + '\n')]
+    piece = [('a piece of a line', {'A': NONL + '+'}, lambda a: a['A'])]
+    n = 0
+    for cls_, nargs in sorted(built):
+        mro = mod.mro(cls_)
+        site = '%s:%s' % (TK, cls_)
+        what = 'constructor accepts every text the tokenizer can hand it'
+        if nargs == 0:
+            shapes = [('no argument', {}, None)]
+        elif 'Deb822CommentToken' in mro:
+            shapes = comment
+        elif 'Deb822ErrorToken' in mro:
+            shapes = anyline
+        elif 'Deb822WhitespaceToken' in mro:
+            shapes = white
+        else:
+            shapes = piece
+        bad = None
+        ncases = 0
+        for desc, atoms, mk in shapes:
+            def body(at, cls_=cls_, mk=mk):
+                # _strI (a str subclass from another module) and sys.intern preserve the text
+                heap = H.Heap(mod, hooks={'_strI': lambda it_, a_, k_: a_[0], 'sys.intern': lambda it_, a_, k_: a_[0]})
+                heap.symbolic_strings = True
+                it = H.Interp(heap)
+                call = ast.parse('%s(%s)' % (cls_, 'T' if mk else ''), mode='eval').body
+                text = mk(at) if mk else None
+                try:
+                    it.ev(call, {'T': text}, None)
+                    return None
+                except H.Raised as x:
+                    return (x.exc, x.lineno, text)
+            results = symstr.explore(atoms, body) if atoms else [({}, body({}))]
+            ncases += len(results)
+            for langs, r in results:
+                if r is not None and bad is None:
+                    w = ''.join(p_ if isinstance(p_, str) else (langs[p_.name].witness() or '') for p_ in r[2].parts) if r[2] is not None else None
+                    bad = (desc, r[0], r[1], w)
+        n += ncases
+        if bad:
+            desc, exc, line, w = bad
+            rep.fail('C01.R8', site, what, 'the tokenizer can build %s(%r) (%s), whose constructor raises %s (line %d): the accepting parser fails on that input'
+                     % (cls_, w, desc, exc, line), detail={'witness': w})
+        else:
+            rep.ok('C01.R8', site, what, '%d shape(s), %d case(s), none raises' % (len(shapes), ncases))
+    rep.analysed['paths'] += n
+
+
 def check(src, rep, tier):
     rep.explanation = ('C01: (R1) L_match(_RE_FIELD_LINE) ∩ LINE ⊆ L_fullmatch; (R2) on the marked automaton every character of a matched line '
                        'lies in exactly one capturing group, groups in index order; (R3) the tokenizer loop body is interpreted over character '
@@ -758,7 +826,8 @@ def check(src, rep, tier):
                        'shift positions, constant tokens stand for a sliced character only under the guard that proves it; every non-raising '
                        'path must emit [0, len(line)) exactly once in order; (R4) the three re-grouping generators are interpreted over stream '
                        'positions with the BufferingIterator API modelled; (R5) constructor-parameter order = iter_parts order, dump = join of '
-                       'all token texts; (R6) whitespace look-ahead merges only newline-terminated lines / supplies the newline.')
+                       'all token texts; (R6) whitespace look-ahead merges only newline-terminated lines / supplies the newline; (R8) every token '
+                       'constructor is interpreted on the language of the texts a tokenizer can hand it and never raises.')
     rep.not_decided = ['absence of every possible exception beyond the token-invariant obligations', 'bytes lines that are not UTF-8']
     rep.need('C01.R1', 1)
     rep.need('C01.R2', 1)
@@ -767,6 +836,7 @@ def check(src, rep, tier):
     rep.need('C01.R5', 8)
     rep.need('C01.R6', 2)
     rep.need('C01.R7', 1)
+    rep.need('C01.R8', 8)
     ginfo = rep.guard('C01.R1', r1_r2_field_regex, src)
     loop = None
     if ginfo is not None:
@@ -776,3 +846,4 @@ def check(src, rep, tier):
         rep.guard('C01.R7', r7_mode_selection, src, loop)
     rep.guard('C01.R4', r4_regrouping, src)
     rep.guard('C01.R5', r5_element_order, src)
+    rep.guard('C01.R8', r8_token_invariants, src)
